@@ -812,11 +812,27 @@ func TestC05(t *testing.T) {
 		}
 
 		var rf struct {
-			Case c05Case `json:"case"`
+			Case    c05Case     `json:"case"`
+			Handoff *hoScenario `json:"handoff"`
 		}
 
 		if err := json.Unmarshal(b, &rf); err != nil {
 			t.Fatal(err)
+		}
+
+		if rf.Handoff != nil {
+			// a scenario of the hand-off phase: goroutine A alone against the scripted watch and goroutine B
+			res := runHandoffA(t, *rf.Handoff)
+			for _, p := range res.problems {
+				rep.violateKey(0, "handoff:"+p[:min(len(p), 12)], p, map[string]any{"handoff": *rf.Handoff})
+			}
+
+			hf := newCoqFile("C05_handoff_cases", []string{"Handoff", "HandoffCheck"}, "hcase", "handoff_mismatches")
+			hf.add(res.coq)
+			hf.finishSharded(t, dir, rep, []any{map[string]any{"handoff": *rf.Handoff}}, 400)
+			rep.write(t, dir)
+
+			return
 		}
 
 		cases = append(cases, rf.Case)
@@ -994,6 +1010,11 @@ func TestC05(t *testing.T) {
 	}
 
 	tf.finishSharded(t, dir, rep, jl, 400)
+
+	if os.Getenv("VERIF_REPLAY") == "" {
+		c05HandoffPhase(t, dir, rep, newRng(seed(), "C05-handoff"))
+	}
+
 	rep.Assumptions = append(rep.Assumptions, "Go scheduler fairness and channel semantics (quiescence is observed with synctest.Wait)", "kind watches deliver the exact event log (C02)")
 	rep.write(t, dir)
 }
